@@ -13,11 +13,11 @@ excs = st.tuples(st.sampled_from(["ValueError", "KeyError", "RuntimeError", "HEr
 POLS = ["continue", "rewait", "propagate", "terminate", "raise"]
 
 
-def policies(allowed=None, other=True):
+def policies(allowed=None, other=True, bias=(), dl=None):
     base = [p for p in POLS if allowed is None or p in allowed]
-    alts = [st.sampled_from(base)]
+    alts = [st.sampled_from(list(bias) + base)]
     if other and (allowed is None or "other" in allowed):
-        alts.append(delays.map(lambda d: ["other", d]))
+        alts.append((delays if dl is None else dl).map(lambda d: ["other", d]))
     return st.one_of(*alts)
 
 
@@ -41,9 +41,9 @@ def cond_trees(depth=3, max_arity=4):
     return extend(t)
 
 
-def instrs(weights, pol=None, ipol=None, trees=None):
-    pol = pol or policies()
-    ipol = ipol or policies()
+def instrs(weights, pol=None, ipol=None, trees=None, delays=delays):
+    pol = policies() if pol is None else pol
+    ipol = policies() if ipol is None else ipol
     table = {
         "timeout": st.tuples(st.just("timeout"), delays, vals, pol, ipol).map(list),
         "wait": st.tuples(st.just("wait"), small, pol, ipol).map(list),
@@ -68,11 +68,26 @@ def instrs(weights, pol=None, ipol=None, trees=None):
 
 
 def programs(weights, max_bodies=5, max_instrs=7, max_start=5, max_nev=4, pol=None, ipol=None, trees=None,
-             inits=(0, 0, 5, 2.5, 0.1)):
-    ins = instrs(weights, pol, ipol, trees)
+             inits=(0, 0, 5, 2.5, 0.1), delay_set=None, min_nev=0, min_start=1):
+    dl = delays if delay_set is None else st.sampled_from(list(delay_set))
+    ins = instrs(weights, pol, ipol, trees, delays=dl)
     return st.fixed_dictionaries({
         "init": st.sampled_from(list(inits)),
-        "nev": st.integers(0, max_nev),
+        "nev": st.integers(min_nev, max_nev),
         "bodies": st.lists(st.lists(ins, min_size=1, max_size=max_instrs), min_size=1, max_size=max_bodies),
-        "start": st.lists(small, min_size=1, max_size=max_start),
+        "start": st.lists(small, min_size=min_start, max_size=max_start),
+    })
+
+
+def programs_roles(roles, max_instrs=7, max_start=6, max_nev=3, pol=None, ipol=None, trees=None,
+                   inits=(0, 0, 5, 2.5, 0.1), delay_set=None, min_nev=0, min_start=1):
+    """like programs(), but body i is drawn with roles[i]'s weight table (e.g. victims vs interrupters)"""
+    dl = delays if delay_set is None else st.sampled_from(list(delay_set))
+    bodies = st.tuples(*[st.lists(instrs(w, pol, ipol, trees, delays=dl), min_size=1, max_size=max_instrs)
+                         for w in roles]).map(list)
+    return st.fixed_dictionaries({
+        "init": st.sampled_from(list(inits)),
+        "nev": st.integers(min_nev, max_nev),
+        "bodies": bodies,
+        "start": st.lists(st.integers(0, len(roles) - 1), min_size=min_start, max_size=max_start),
     })
